@@ -581,6 +581,27 @@ class C09(E2ECheck):
             return
         yield from super().shrink_candidates(case)
 
+    def extra_shards(self, tier):
+        return 1
+
+    def extra_shard(self, tier, seed, shard, nshards, stats):
+        # trusted-base validation: what a real botocore client does to an
+        # upload body must be something the fake client can do
+        from ..units import botocore_diff
+        ok, bad = botocore_diff.validate()
+        stats.extra = {'real_botocore_traces_accepted': ok}
+        if bad:
+            raise HarnessError(
+                'the fake body protocol does not cover what the installed '
+                f'botocore does: {bad}')
+
+    def coverage_extra(self, tier, results):
+        n = 0
+        for r in results:
+            n += (r.get('extra') or {}).get(
+                'real_botocore_traces_accepted', 0)
+        return {'real_botocore_traces_accepted_by_fake_protocol': n}
+
     def classify(self, R):
         cls = base_classes(R)
         neg = any(k == 'cb.progress' and info['n'] < 0
